@@ -20,7 +20,9 @@ pub struct Passwd<'a> {
 pub fn getpwuid_r(uid: UidT, buf: &mut [u8]) -> Result<Option<Passwd>> {
     let fd =
         unsafe { rusl::unistd::open_raw(c"/etc/passwd".as_ptr() as usize, OpenFlags::O_RDONLY)? };
-    search_pwd_fd(fd, uid, buf)
+    let res = search_pwd_fd(fd, uid, buf);
+    let _ = rusl::unistd::close(fd);
+    res
 }
 
 #[inline]
